@@ -57,7 +57,8 @@ def configs_for(entry, tier, rng, small_values=(1, 2, 3, 4, 5), max_alt=None):
     if k == 0:
         return cfgs
     if max_alt is None:
-        max_alt = (2 if k == 1 else 3 if k == 2 else 4) if tier == "quick" else 8
+        # two parameters: the four relation classes the default does not cover
+        max_alt = (2 if k == 1 else 4) if tier == "quick" else 8
     # 5 (not 4) in the quick pool: several buffer sizes only become insufficient from a period difference of 4 on
     pool = [v for v in small_values if v != 4] if tier == "quick" else list(small_values) + [7]
     cands = list(itertools.product(pool, repeat=k)) if len(pool) ** k <= 4096 else \
@@ -267,10 +268,12 @@ class Case:
         return "%s%s cap=%d" % (self.pipe, self.cfg, self.cap)
 
 
-def build_cases(entries, tier, caps, rng, max_alt=None):
+def build_cases(entries, tier, caps, rng, max_alt=None, max_alt_multi=None):
+    """max_alt_multi: number of alternatives for entries with two or more parameters (default: max_alt)"""
     cases = []
     for e in entries:
-        for cfg in configs_for(e, tier, rng, max_alt=max_alt):
+        ma = max_alt_multi if (max_alt_multi is not None and len(e["params"] or []) >= 2) else max_alt
+        for cfg in configs_for(e, tier, rng, max_alt=ma):
             for cap in caps:
                 cases.append(Case(e, cfg, cap))
     return cases
